@@ -72,6 +72,7 @@ var c12Both = func() []bothXf {
 		out = append(out, bothXf{name: fmt.Sprintf("translate(%g,%g)", d[0], d[1]), t: Xf{Scale: 0.5, Tx: d[0], Ty: d[1]}})
 		out = append(out, bothXf{name: fmt.Sprintf("move(%g,%g)", d[0], d[1]), t: ident, move: &d})
 	}
+	out = append(out, bothXf{name: "far-fine(2^-12 at 2^19)", t: farFineXf})
 	for _, s := range []float64{0.125, 2, 1024, 1.0 / (1 << 29), 1.0 / (1 << 40)} {
 		out = append(out, bothXf{name: fmt.Sprintf("scale(%g)", s), t: Xf{Scale: 0.5 * s}})
 	}
